@@ -422,6 +422,12 @@ func (e *Engine) globalByName(st *State, pkgPath, gname string, t types.Type, im
 	v := Value{T: t, L: ls}
 	if immutable && knownNonNilExternalName(name) {
 		e.nonNilFact(name, v)
+		if dt := e.w.errorStringType(); dt != nil && v.L[0].Sort == smt.Iface && name != "io.Discard" {
+			if !e.dynDone[name] {
+				e.dynDone[name] = true
+				e.ctx.Axiom(smt.Eq(e.dyn(v.L[0]), e.typeTag(dt)))
+			}
+		}
 	}
 	return v
 }
